@@ -82,7 +82,7 @@ impl Prop for C02 {
     }
     fn plan(&self, tier: Tier) -> Plan {
         match tier {
-            Tier::Quick => Plan { runs: 3072, time_box_s: None, isolation: Isolation::Threads },
+            Tier::Quick => Plan { runs: 9216, time_box_s: None, isolation: Isolation::Threads },
             Tier::Thorough => Plan { runs: 400_000, time_box_s: Some(480), isolation: Isolation::Threads },
         }
     }
